@@ -19,6 +19,7 @@ PREFIXES = ["C09.", "Any.Crash"]
 def run(chk):
     cerlib.run_config(chk, "C09", PREFIXES)
     cerlib.run_config(chk, "C09client", PREFIXES)
+    cerlib.run_config(chk, "Rebuild", PREFIXES, repeat=4)      # PRF secrets made under one configuration, evaluated under another
     cerlib.random_histories(chk, PREFIXES, quick_n=100)
     cerlib.finish_cov(chk, "one behaviour per (authenticator PRF configuration, stored secret shape, request shape, verification requested/performed); "
                            "client: per (member kind, eval shape, per-credential keys incl. malformed, allow list, input length class)",
